@@ -91,16 +91,25 @@ def registerBlob (r : Repo) (st : GState) (oid : Nat) : Res GState :=
   let sz := blobSize32 r oid
   .ok { st with blobs := Agg.upd st.blobs oid (some sz), hist := HistorySize.recordBlob st.hist oid sz }
 
+/-- `finalizeTreeSize` → `recordTree` for one newly finalised tree -/
+def recordTreeAt (r : Repo) (sizes : Nat → Option TreeSize) (h : HistorySize) (t : Nat) : HistorySize :=
+  match sizes t with
+  | some sz => HistorySize.recordTree h t sz (objSize32 r t) (entryCount32 (r.entries t).length)
+  | none => h
+
+/-- `finalizeTagSize` → `recordTag` for one newly finalised tag -/
+def recordTagAt (r : Repo) (sizes : Nat → Option TagSize) (h : HistorySize) (t : Nat) : HistorySize :=
+  match sizes t with
+  | some sz => HistorySize.recordTag h t sz (objSize32 r t)
+  | none => h
+
 /-- `RegisterTree` + `initialize` + the finalisation cascade -/
 def registerTree (r : Repo) (st : GState) (oid : Nat) : Res GState :=
   if (st.trees.sizes oid).isSome then .panic "tree registered twice" else
   if (r.entries oid).any (fun e => e.kind == .blob && (st.blobs e.oid).isNone) then .panic "blob size not known" else
   let t' := Agg.registerTree (PB r) (fuelOf r) st.trees oid
   let newFins := t'.fins.drop st.trees.fins.length
-  let hist := newFins.foldl (fun h t =>
-    match t'.sizes t with
-    | some sz => HistorySize.recordTree h t sz (objSize32 r t) (entryCount32 (r.entries t).length)
-    | none => h) st.hist
+  let hist := newFins.foldl (recordTreeAt r t'.sizes) st.hist
   .ok { st with trees := t', hist := hist }
 
 /-- `RegisterCommit` -/
@@ -132,10 +141,7 @@ def registerTag (r : Repo) (st : GState) (oid : Nat) : Res GState :=
   if (st.tags.sizes oid).isSome then .panic "tag registered twice" else
   let t' := Agg.registerTree (PT r) (fuelOf r) st.tags oid
   let newFins := t'.fins.drop st.tags.fins.length
-  let hist := newFins.foldl (fun h t =>
-    match t'.sizes t with
-    | some sz => HistorySize.recordTag h t sz (objSize32 r t)
-    | none => h) st.hist
+  let hist := newFins.foldl (recordTagAt r t'.sizes) st.hist
   .ok { st with tags := t', hist := hist }
 
 /-- `recordReferenceGroup` -/
